@@ -38,7 +38,9 @@ std::string exactWeight(int k) {
     return b;
 }
 std::string roundedWeight(int sign, int e, int frac) {
-    double w = (1.0 + frac / 1048576.0) * std::ldexp(1.0, e);
+    // full 53-bit mantissas over 20 binades: sums are not exactly representable even in long double,
+    // so a running total depends on the order of accumulation
+    double w = (1.0 + frac / 1048576.0) / 3.0 * std::ldexp(1.0, e);
     if (sign)
         w = -w;
     char b[64];
@@ -231,7 +233,9 @@ Gen<Case> makeEqGen(const Cfg &cfg) {
         h.fam = parts[0][1] == 'M' ? 'M' : parts[0][1] == 'W' ? 'W' : 'L';
         h.nolabel = parts[0][1] == 'S';
         h.forcePct = 0;
-        h.exact = true;
+        // weighted classes: half of the cases use weights whose sums are NOT exactly representable, so that the
+        // running totals of two histories of the same graph differ in their last bits
+        h.exact = h.fam == 'W' ? *gen::arbitrary<bool>() : true;
         std::vector<std::pair<std::size_t, Gen<Op>>> gens;
         std::size_t total = 0;
         for (auto &m : mix) {
@@ -278,7 +282,7 @@ Gen<Case> makeEqGen(const Cfg &cfg) {
         c.set("class", parts[0]);
         c.set("label", parts.size() > 1 ? parts[1] : "none");
         if (h.fam == 'W')
-            c.set("mode", "exact");
+            c.set("mode", h.exact ? "exact" : "rounded");
         int scenario = *wel({{3, 0}, {3, 1}, {2, 2}, {2, 3}});
         c.set("scenario", std::string(1, char('a' + scenario)));
         int n0 = *gN0();
